@@ -155,6 +155,71 @@ def build(tier):
     # the CNN's own copy of the slice logic (used by EvolvableCNN / EvolvableResNet / MakeEvolvable when shrinking): same postcondition
     P.contract("agilerl.modules.cnn.EvolvableCNN.shrink_preserve_parameters", setup=setup, params={}, requires=[], frame_fields=False,
                ensures=["pp_post(result)"], replay={"adapter": "demos:run", "payload": {"name": "C04_demo_1"}})
+    # EvolvableDistribution.clone: the clone wraps a clone of the wrapped network and carries over log_std and the squashing flag
+    DN = "agilerl.networks.distributions.EvolvableDistribution"
+    rec = {}
+
+    class WrappedNet:
+        def __init__(self, tag):
+            self.tag = tag
+
+        def getattr(self, ex, st, name):
+            if name == "clone":
+                return Fn(model=lambda ex, st, a, k: WrappedNet(("clone-of", self)), name=name)
+            raise Undecided(name)
+
+    class LogStd:
+        def __init__(self, v):
+            self.v = v
+            self.data = self
+
+        def getattr(self, ex, st, name):
+            if name == "data":
+                return self
+            if name == "copy_":
+                def cp(ex, st, a, k):
+                    self.v = a[0].v
+                return Fn(model=cp, name=name)
+            raise Undecided(name)
+
+    def dist_ctor(ex, st, a, k):
+        o = Obj("model.EvolvableDistribution", label="clone")
+        box = k["action_space"].isinstance(ex, st, ["Box"])
+        o.fields.update(dict(action_space=k["action_space"], wrapped=k["network"], action_std_init=k["action_std_init"], device=k.get("device", "cpu"),
+                             squash_output=z3.And(z3ify(k.get("squash_output", False)), z3.BoolVal(box))))
+        if box:
+            o.fields["log_std"] = LogStd(z3.Real("fresh_log_std"))
+        return o
+    P.lib[DN] = dist_ctor
+
+    class SpaceB:
+        def __init__(self, cls):
+            self.cls = cls
+
+        def isinstance(self, ex, st, names):
+            return self.cls in names
+    for cls in ("Box", "Discrete"):
+        def dself(ex, st, label, cls=cls):
+            o = Obj(DN, label="self")
+            o.fields.update(dict(action_space=SpaceB(cls), _wrapped=WrappedNet("head"), wrapped=None, action_std_init=z3.Real("std_init"), device="cpu",
+                                 squash_output=z3.Bool("squash_flag") if cls == "Box" else False))
+            o.fields["wrapped"] = o.fields["_wrapped"]
+            if cls == "Box":
+                o.fields["log_std"] = LogStd(z3.Real("trained_log_std"))
+            rec["self"] = o
+            return o
+
+        def dpost(res, cls=cls):
+            o = rec["self"]
+            if not (isinstance(res, Obj) and res is not o and isinstance(res.fields.get("wrapped"), WrappedNet) and res.fields["wrapped"].tag == ("clone-of", o.fields["wrapped"])):
+                return z3.BoolVal(False)
+            out = [z3ify(res.fields["squash_output"]) == z3ify(o.fields["squash_output"])]
+            if cls == "Box":
+                out += [res.fields["log_std"].v == z3.Real("trained_log_std"), z3.BoolVal(res.fields["log_std"] is not o.fields["log_std"])]
+            return z3.And(*out)
+        P.specns[f"dist_clone_{cls}"] = dpost
+        P.contract(DN + ".clone", variant=cls, params={"self": dself}, requires=[], frame_fields=False, ensures=[f"dist_clone_{cls}(result)"],
+                   replay={"adapter": "demos:run", "payload": {"name": "C04_demo_5"}})
     P.native.append(dict(name="walk", adapter="c03:walk", thorough_only=True, payload={"mode": "search"},
                          bound="same clone-and-mutate walks as C03: clone() reproduces outputs; strict reload"))
     P.native.append(dict(name="preserve", adapter="c04:preserve", payload={"mode": "search"},
